@@ -68,10 +68,13 @@ def render_items(items, lang, fid, out):
             out.append(("blank", ""))
         elif t == "comment":
             out.append(("comment", "! note" if lang == "f90" else "// note"))
+        elif t == "bcomment" and lang == "f90":
+            for _ in range(it[1] + 2):
+                out.append(("comment", "! block"))
         elif t == "bcomment":
             out.append(("comment", "/* block"))
             for _ in range(it[1]):
-                out.append(("comment", "   #define NOT_A_DIRECTIVE 1" if lang != "f90" else "   text"))
+                out.append(("comment", "   #define NOT_A_DIRECTIVE 1"))
             out.append(("comment", "*/"))
         elif t == "define" and len(it) > 3 and it[3] == "ml" and it[2] is not None:
             # a backslash-continued directive: two physical lines, both counted
